@@ -65,7 +65,7 @@ c.ensures("implies(old(self.chunk_left) is not None, self.chunk_left is old(self
 
 # ---------------------------------------------------------------- C01: response side of the lease
 c = contract(f"{R}.release_conn", prop="C01")
-c.props.update({"C13"})
+c.props.update({"C13", "C03", "C02"})
 c.ghost("out")
 c.requires("is_int(ghost.out)")
 c.requires("self._pool is None or isinstance(self._pool, HTTPConnectionPool)")
@@ -79,7 +79,7 @@ c.ensures("implies(old(self._connection) is not None, old(self._connection).sock
 
 # ---------------------------------------------------------------- C13: a short or broken body is never presented as complete
 c = contract(f"{R}._raw_read", prop="C13")
-c.props.update({"C12"})
+c.props.update({"C12", "C03"})
 c.types(amt="opt:int", read1="bool")
 c.ghost("out")
 c.requires("is_int(ghost.out)")
